@@ -95,7 +95,7 @@ func refPublic(seedIdx int) []byte {
 }
 
 func jobC02(c *rt.Ctx) {
-	c.Require("pure", "ctx", "ph", "style/hash0", "style/sha512", "style/options", "style/helper", "keygen")
+	c.Require("pure", "ctx", "ph", "style/hash0", "style/sha512", "style/options", "style/helper", "style/record", "keygen")
 	nseeds := 256
 	if c.Thorough() {
 		nseeds = 4096
@@ -237,6 +237,22 @@ func jobC02(c *rt.Ctx) {
 		}
 		if !bytes.Equal(priv, privCopy) || !bytes.Equal(msg, msgCopy) {
 			c.Violation("C02 input-modified", "Sign modified its private key or message argument", map[string]interface{}{"seed": ref.Hex(seed)})
+		}
+		// the caller keeps seed and message in ONE buffer (a seed || message record; the seed slice
+		// therefore has spare capacity that holds live data), derives the key from the front and signs
+		// the rest - and afterwards scrubs the buffer: the signature over the message as it was, and
+		// the key's later signatures, must still be the RFC 8032 ones for (seed, message)
+		if k.si%8 == 0 {
+			record := append(append(make([]byte, 0, 32+len(msg)+64), seed...), msg...)
+			rk := NewKeyFromSeed(record[:32])
+			rs, re := rk.Sign(nil, record[32:], opts)
+			c.Class("style/record")
+			check("record", rs, re)
+			for i := range record {
+				record[i] = 0
+			}
+			rs2, re2 := rk.Sign(nil, msg, opts)
+			check("record-scrubbed", rs2, re2)
 		}
 		if c.WantSample() && k.vi > 0 {
 			c.Sample(map[string]interface{}{"seed": ref.Hex(seed), "msg_len": len(msg), "variant": sv.v.String(), "ctx_len": len(sv.ctx), "signature": ref.Hex(want)})
